@@ -148,7 +148,10 @@ def classify(d, groups, regnames=()):
     # ... i.e. the SET of registered types differed (names present before only one of the runs), while
     # the names present before both were interned in the same relative order (the set-up itself is
     # deterministic); never across two fresh processes
+    # (since /repo fix 436399e a leaked type name no longer replaces a builtin: a struct declaration
+    #  that fails in a later interpreter is NOT part of this finding any more)
     if d.get("registry_differs_before_run") and d["kind"] in ("repeat", "after", "afterclean", "batch") \
+            and "bad struct declaration" not in a and "bad struct declaration" not in b \
             and d.get("common_type_names_interned_in_same_order") \
             and (d.get("type_names_only_before_a") or d.get("type_names_only_before_b") or not re.search(r"symnum|\(< \(quote|gensym", prog)) \
             and (REGISTRY_SENSITIVE.search(prog) or (
